@@ -93,6 +93,7 @@ type Inner struct {
 	Depth int
 }
 
+func (o *Obj) Self() *Obj            { return o }
 func (o *Obj) Add(a, b int) int      { return a + b }
 func (o *Obj) Greet(s string) string { return "hi " + s }
 func (o *Obj) PM(id int, v interface{}) (interface{}, error) {
@@ -128,6 +129,11 @@ func (rt *Runtime) plainData() map[string]interface{} {
 		"m1":  map[string]interface{}{"n": 5, "s": "str", "b": true},
 		"obj": &Obj{Name: "bot", N: 9, On: true, Tags: []string{"t1", "t<2"}, Nums: []int{1, 2, 3}, Inner: &Inner{Label: "in", Depth: 2}, rt: rt},
 		"tm":  fixedTime,
+		"objs": []*Obj{
+			{Name: "o0", N: 10, Tags: []string{"a0", "b0"}, Nums: []int{7, 8, 9}, Inner: &Inner{Label: "i0", Depth: 0}, rt: rt},
+			{Name: "o1", N: 11, Tags: []string{"a1", "b1"}, Nums: []int{7, 8, 9}, Inner: &Inner{Label: "i1", Depth: 1}, rt: rt},
+		},
+		"om": map[string]*Obj{"x": {Name: "ox", N: 12, rt: rt}},
 	}
 	if rt.Prog != nil && rt.Prog.JS {
 		d["contentType"] = "application/javascript"
@@ -171,6 +177,24 @@ func (rt *Runtime) helperData() map[string]interface{} {
 			}
 			return template.HTML("[" + s + "]"), nil
 		},
+		"pbw": func(id int, data map[string]interface{}, help plush.HelperContext) (template.HTML, error) {
+			fire := id != 0 && rt.enter(id, "", pkBlock)
+			if fire && rt.Kind != fkBlockPost {
+				return "", rt.Fault
+			}
+			c := help.New()
+			for k, v := range data {
+				c.Set(k, v)
+			}
+			s, err := help.BlockWith(c)
+			if err != nil {
+				return "", err
+			}
+			if fire {
+				return "", rt.Fault
+			}
+			return template.HTML("<" + s + ">"), nil
+		},
 		"po": func(id int, opts map[string]interface{}) (string, error) {
 			if rt.enter(id, "", pkOpts) {
 				return "", rt.Fault
@@ -185,6 +209,28 @@ func (rt *Runtime) helperData() map[string]interface{} {
 				fmt.Fprintf(&sb, "%s=%v;", k, opts[k])
 			}
 			return sb.String(), nil
+		},
+		"sum": func(first int, rest ...int) int {
+			for _, r := range rest {
+				first += r
+			}
+			return first
+		},
+		"p3": func(id, a, b, c int, opts map[string]interface{}, help plush.HelperContext) (int, error) {
+			if id != 0 && rt.enter(id, "", pkOpts) {
+				// a helper may return a non-nil value together with its error
+				return a + b + c, rt.Fault
+			}
+			if opts == nil || help.Context == nil {
+				return 0, fmt.Errorf("harness: options map / helper context not supplied")
+			}
+			return a + b + c + len(opts), nil
+		},
+		"pr": func(id int, s string, help plush.HelperContext) (string, error) {
+			if id != 0 && rt.enter(id, "", pkOpts) {
+				return "partial result", rt.Fault
+			}
+			return help.Render("{<%= n2 %>:" + strings.ReplaceAll(strings.ReplaceAll(s, "<", "("), "%", "pct") + "}")
 		},
 		"partialFeeder": func(name string) (string, error) {
 			if rt.enter(0, name, pkFeeder) {
